@@ -482,6 +482,8 @@ def valid_id_from_guard(interp: Interp, r: int, n_origins: int, consts: Consts, 
     if any(not is_fit_check_raise(o) for o in enc.raises):
         return None
     v = g.value
+    if not isinstance(v, Lin) or v.has_opaque():
+        return None
     S = sym_in(v, "S" + suffix)
     if S is not None and S.hi is None:
         return None
